@@ -164,7 +164,7 @@ class LoopsMixin:
         if self.known(st, self.is_kind(st, v, Z.K_LIST, Z.K_TUPLE)) or self.spec:
             arr = h.elems(a)   # snapshot of the contents at loop entry
             n = h.len_of(a)
-            return IterView(n, lambda i: z3.Select(arr, i), [n >= 0], 'list')
+            return IterView(n, lambda i: z3.simplify(z3.Select(arr, i)), [n >= 0], 'list')
         if self.known(st, self.is_kind(st, v, Z.K_DICT, Z.K_SET)):
             return self.dict_view(st, v, 'keys')
         raise Unsupported("iteration over value of unknown kind" + (": " + ast.unparse(node) if node is not None else ''), node)
@@ -432,8 +432,9 @@ class LoopsMixin:
             if is_for:
                 env['K'] = Z.mk_i(k)
                 env['N'] = Z.mk_i(view.n)
-            s2 = s.clone(env=env, old_heap=pre.heap, old_env=dict(pre.env, **({'K': Z.mk_i(k), 'N': Z.mk_i(view.n)} if is_for else {})))
-            return [self.spec_eval(cl, s2, env=env, old=(pre.heap, s2.old_env)) for cl in invs]
+            # old(e): value at function entry; pre(e): value at loop entry; fresh(x): allocated since function entry
+            s2 = s.clone(env=env).with_meta(loop_pre=(pre.heap, dict(pre.env, **({'K': Z.mk_i(k), 'N': Z.mk_i(view.n)} if is_for else {}))))
+            return [self.spec_eval(cl, s2, env=env, old=(s.old_heap, s.old_env)) for cl in invs]
 
         # 1. entry
         for kk, (cl, phi) in enumerate(zip(invs, inv_terms(entry, K0, entry))):
@@ -456,6 +457,9 @@ class LoopsMixin:
         if is_for:
             head = head.assume(k >= 0, k <= view.n)
         head = head.assume(*inv_terms(head, k, entry))
+        # vacuity guard: the entry state itself satisfies the invariant (K = 0), so the arbitrary-iteration state is satisfiable
+        if head.check() == z3.unsat and entry.check() != z3.unsat:
+            raise Unsupported("invariant of loop '%s' is contradictory at the loop head (contract error)" % sig, node)
         # 3. body
         exits = []
         if is_for:
